@@ -121,6 +121,34 @@ func genJNode(t *rapid.T, depth int) jnode {
 	}
 }
 
+// genSpine buries inner under a deep chain of containers (depths around the
+// word sizes a nesting stack might be packed into, and far beyond), each level
+// an object or an array with a few scalar siblings before and after the deep child.
+func genSpine(t *rapid.T, inner jnode) jnode {
+	depth := []int{20, 31, 32, 33, 63, 64, 65, 66, 100, 127, 128, 129, 200, 260}[rapid.IntRange(0, 13).Draw(t, "spinedepth")]
+	cur := inner
+	for i := 0; i < depth; i++ {
+		n := jnode{K: "arr"}
+		if rapid.Bool().Draw(t, "spineobj") {
+			n.K = "obj"
+		}
+		before := rapid.IntRange(0, 1).Draw(t, "sb")
+		after := rapid.IntRange(0, 2).Draw(t, "sa")
+		for j := 0; j < before+1+after; j++ {
+			if j == before {
+				n.Kids = append(n.Kids, cur)
+			} else {
+				n.Kids = append(n.Kids, jnode{K: "int", I: int64(i*10 + j)})
+			}
+			if n.K == "obj" {
+				n.Keys = append(n.Keys, []byte(fmt.Sprintf("k%d", j)))
+			}
+		}
+		cur = n
+	}
+	return cur
+}
+
 // emit makes the Outputter calls for a tree; budget limits the number of calls
 // (for abandoned documents). It returns false when the budget ran out.
 func emit(out plenccodec.Outputter, n *jnode, budget *int) bool {
@@ -348,6 +376,9 @@ var c15 = &vh.Prop[c15Case]{
 		var c c15Case
 		for i := 0; i < n; i++ {
 			d := c15Doc{Tree: genJNode(t, rapid.IntRange(0, 5).Draw(t, "depth"))}
+			if rapid.IntRange(0, 15).Draw(t, "spine") == 0 {
+				d.Tree = genSpine(t, d.Tree)
+			}
 			if i < n-1 && rapid.IntRange(0, 3).Draw(t, "abandon") == 0 {
 				d.Abandon = rapid.IntRange(1, 12).Draw(t, "ncalls")
 			}
